@@ -25,4 +25,10 @@ META = {
   text="Generated search: the signature string and hash of every generated declaration are compared with an independent construction, Keccak is cross-checked against a from-scratch implementation and mainnet vectors, and blocks of matching/decoy logs must yield rows exactly for the logs passing the hash+topic-count gate.",
   note="Trusted: refmodel.Keccak256 (validated against five mainnet topics and the empty-string digest), refmodel canonical signature.",
  ),
+ "C01": dict(
+  design_ref="DESIGN.md §4, §5 C01",
+  technique="rapid model-based state machine: real Task.Converge against simulated JSON-RPC node + fake Postgres (wire protocol), oracle = independent projection model and per-step commit-record invariants",
+  text="Generated search over configurations x chain contents x interleavings of growth and indexing steps (thousands of histories quick, ~10^5 thorough), with the complete table compared against an independent projection after every successful step and at quiescence. Exploration only: bounded chain lengths (tens of blocks) and sizes; no absence claim.",
+  note="Trusted: harness/fakepg (Postgres semantics of ~20 statement shapes), harness/sim (JSON-RPC node), harness/model + refmodel (projection). pgx and net/http are in the loop but only as transport.",
+ ),
 }
